@@ -119,6 +119,14 @@ def _create_files(  # noqa: C901, PLR0912, PLR0913
             _failed.add(dest_path)
             onerror(src_path, dest_path, exc)
 
+        if links != ["copy"]:
+            # NOTE: unlike a copy, a link does not create the directories
+            # above it, and they need not have entries of their own
+            for parent in {fs.parent(dest_path) for dest_path in dest_paths}:
+                # what is in the way is reported for the files below it
+                with suppress(OSError):
+                    fs.makedirs(parent, exist_ok=True)
+
         if isinstance(fs, LocalFileSystem) and links and links != ["copy"]:
             # NOTE: a link is never created over an existing path (transfer
             # skips such a path silently), and whatever sits there is not
